@@ -247,22 +247,40 @@ class OriginAnalysis:
         # the same function entered with the same abstract inputs (same objects bound to the same names, same heap) gives the same abstract
         # result: remembered, so that chains of property getters do not multiply the work at every level (the analysis is deterministic
         # in its inputs; findings of the first evaluation are already recorded)
+        # The key is the callee, its caller (fresh objects are named after the last two functions of the call chain) and the part of the
+        # abstract state the callee can see: the objects bound to its parameters and everything reachable from them through the heap.
+        # The rest of the heap is a FRAME: it passes through the call unchanged, so a remembered result is the callee's heap DELTA, applied
+        # to whatever heap the next caller has.
         try:
-            key = (fi.qual, frozenset(bound_env.names.items()), frozenset(((id(k[0]), k[1]), v) for k, v in bound_env.heap.items()))
+            by_obj = {}
+            for (o, f), v in bound_env.heap.items():
+                by_obj.setdefault(id(o), []).append((f, v))
+            seen, todo = set(), [o for v in bound_env.names.values() for o in v]
+            while todo:
+                o = todo.pop()
+                if id(o) in seen:
+                    continue
+                seen.add(id(o))
+                for f, v in by_obj.get(id(o), ()):
+                    todo.extend(v)
+            visible = frozenset(((id(o), f), v) for (o, f), v in bound_env.heap.items() if id(o) in seen)
+            key = (fi.qual, self.chain[-1][0] if self.chain else None, frozenset(bound_env.names.items()), visible)
             hash(key)
         except TypeError:
             key = None
         memo = self.__dict__.setdefault("_call_memo", {})
         if key is not None and key in memo:
-            ret, heap = memo[key]
-            return ret, dict(heap)
+            ret, delta = memo[key]
+            heap = dict(bound_env.heap)
+            heap.update(delta)
+            return ret, heap
         self.chain.append((fi.qual, call_node))
         try:
             ret, heap = self.run_function(fi, bound_env)
         finally:
             self.chain.pop()
         if key is not None:
-            memo[key] = (ret, dict(heap))
+            memo[key] = (ret, {k: v for k, v in heap.items() if bound_env.heap.get(k) != v})
         return ret, heap
 
 
